@@ -1818,3 +1818,36 @@ EXPLAIN['C12'] = ('the crate\'s LU::new / solve / determinant / inverse are exec
                   'A A^-1 = I and det = Leibniz polynomial in the truncated Taylor algebra part by part, for all '
                   'real matrices on the path; a singular report must entail det(re A) = 0; every pivot division '
                   'is shown non-zero (definedness)')
+
+
+def c16(run):
+    from . import kani_run
+    kani_run.run_group(run, 'C16')
+    run.bounds = {'types': 'Dual64, Dual32, Dual2_64, Dual3_64, HyperDual64, HyperHyperDual64, Dual<Dual64>, '
+                           'Dual2<Dual64>; all bit patterns (NaN payloads, +-0, subnormals)',
+                  'format': 'an in-memory record tape (Begin(struct name, len) | Key(name) | F64(bits) | F32(bits) | '
+                            'End) driven through the derived Serialize/Deserialize impls (map-style visitor, field '
+                            'identification by name)',
+                  'outside': 'serde_json\'s text layer (float formatting/parsing loops on symbolic floats are not '
+                             'encodable); the property\'s own restriction to values the format represents exactly '
+                             'makes the in-memory format a legitimate instance'}
+
+
+def c18(run):
+    from . import kani_run
+    kani_run.run_group(run, 'C18')
+    run.bounds = {'types': 'Dual, Dual2, Dual3, HyperDual, HyperHyperDual (thorough), Dual<Dual>; DualVec<1>, '
+                           'Dual2Vec<1>, HyperDualVec<1,1> with every presence pattern',
+                  'leaves': 'token leaves whose Display writes one symbolic ASCII letter',
+                  'outside': 'the bracketed layout of vector parts with >= 2 components and nalgebra\'s matrix '
+                             'layout (CBMC ran out of memory on the String join path); float-to-text round trip '
+                             'of the std leaf Display (assumed); Python __repr__'}
+    run.assumptions.append('std f32/f64 Display prints a shortest representation that parses back exactly')
+
+
+EXPLAIN['C16'] = ('Kani/CBMC drives the derived Serialize/Deserialize impls through an exact in-memory data format '
+                  'with fully symbolic bit patterns: round trip restores every part bit for bit; recorded keys are '
+                  'exactly the public field names in declaration order; record count is 2 + 2 * #parts per struct')
+EXPLAIN['C18'] = ('Kani/CBMC runs the real Display impls over token leaves into a fixed buffer via core::fmt::write; '
+                  'the buffer equals the real-part token followed, for each present part in declaration order, by '
+                  '" + ", the part token and its documented symbol; absent parts are omitted')
